@@ -62,6 +62,8 @@ type Fault struct {
 
 // Conn is one end of an in-memory connection.
 type Conn struct {
+	// CloseDelay: Close blocks for this long before it takes effect (set before the connection is handed out).
+	CloseDelay time.Duration
 	rd, wr        *pipe
 	local, remote addr
 	closeOnce     sync.Once
@@ -312,6 +314,10 @@ func (c *Conn) CloseWrite() error {
 // Close closes this end: pending and later reads/writes on it fail with net.ErrClosed,
 // the peer reads EOF (after draining) and its writes fail with EPIPE.
 func (c *Conn) Close() error {
+	if d := c.CloseDelay; d > 0 {
+		// a transport whose Close takes time (a closing handshake, a lingering socket): the end is usable until it is over
+		time.Sleep(d)
+	}
 	c.closeOnce.Do(func() {
 		c.mu.Lock()
 		c.ClosedByUser = true
